@@ -187,7 +187,9 @@ class Mon:
     """A persistent executor process: one JSON request per line in, one JSON
     reply per line out."""
 
-    def __init__(self, mode, env=None, binary="vpmon", preexec=None, cwd=None, prefix=(), umask=-1):
+    def __init__(self, mode, env=None, binary="vpmon", preexec=None, cwd=None, prefix=(), umask=-1, stderr_full=False):
+        """stderr_full: the executor's stderr is /dev/full (every write to it fails with ENOSPC: a log collector that went away) - nothing
+        the properties promise involves writing to stderr"""
         e = dict(os.environ)
         e.update(hostile_env())
         e.pop("CARGO_PRIMARY_PACKAGE", None)
@@ -195,7 +197,7 @@ class Mon:
             e.update(env)
         self.args = list(prefix) + [os.path.join(BIN, binary), mode]
         self.umask = 0o022 if umask == -1 else umask
-        self.p = subprocess.Popen(self.args, stdin=subprocess.PIPE, stdout=subprocess.PIPE,
+        self.p = subprocess.Popen(self.args, stdin=subprocess.PIPE, stdout=subprocess.PIPE, stderr=open("/dev/full", "wb") if stderr_full else None,
                                   env=e, preexec_fn=preexec, cwd=cwd, umask=umask)
 
     def call(self, req):
